@@ -27,6 +27,10 @@ typedef struct istream_xfrm_t {
 
 	size_t buffer_offset;
 	size_t buffer_used;
+
+	/* compressed data was consumed since the last end-of-stream marker */
+	bool in_stream;
+
 	sqfs_u8 uncompressed[BUFSZ];
 } istream_xfrm_t;
 
@@ -67,14 +71,28 @@ static int precache(sqfs_istream_t *base)
 		if (ret == XFRM_STREAM_ERROR)
 			return SQFS_ERROR_COMPRESSOR;
 
+		if (in_off > 0)
+			xfrm->in_stream = true;
+
+		if (ret == XFRM_STREAM_END)
+			xfrm->in_stream = false;
+
 		xfrm->buffer_used = out_off;
 		xfrm->wrapped->advance_buffer(xfrm->wrapped, in_off);
 
 		if (ret == XFRM_STREAM_BUFFER_FULL || out_off >= BUFSZ)
 			break;
 
-		if (mode == XFRM_STREAM_FLUSH_FULL)
+		if (mode == XFRM_STREAM_FLUSH_FULL) {
+			/*
+			 * The underlying stream ended, but the decompressor
+			 * never saw the end of the compressed stream it is
+			 * in the middle of: the input was cut short.
+			 */
+			if (avail == 0 && xfrm->in_stream)
+				return SQFS_ERROR_CORRUPTED;
 			break;
+		}
 	}
 
 	return 0;
